@@ -131,6 +131,8 @@ def run(ctx, col, tier):
     from . import geosinks
     geo, res = geosinks.check_sinks(ctx, col, "R-TYPE", only=lambda q: "volumetric_object" in q)
     geosinks.report(col, "R-TYPE", res, repo=ctx.repo)
+    from ..rules import memo
+    memo.run(ctx, col, ('swcgeom.utils.volumetric_object', 'swcgeom.utils.solid_geometry'))
     col.guard(forms, ctx, col)
     col.guard(lens_cells, ctx, col)
     col.guard(concentric, ctx, col)
